@@ -8,7 +8,7 @@ from .. import common, gen, refparse, workload, pools, contracts
 ID = "C02"
 LEVEL = "exploration"
 RULE = ("cases = generated plotfiles (2D/3D, 1-4 levels, non-zero origin, anisotropic cells, "
-        "ref-ratio line longer than needed, repeated field names, trailing-blank/float-format "
+        "ref-ratio line longer than needed, repeated field names, names with metacharacters / blanks / UTF-8 text, trailing-blank/float-format "
         "variants, NaN/inf min-max tables) x limit_level in {None,0..finest,finest+1,+3} x "
         "header_only x maxmins; one evaluation = one opening whose public attributes are compared "
         "with the model and with an independent parse. distinct = hash(model, configuration); "
@@ -28,6 +28,9 @@ def cases(tier, seed):
             nf = g["nfields"] = max(3, min(g["nfields"], 7))
             base = ["rho", "temp", "Y(H2)", "rho", "temp", "rho", "x(1)"]
             g["names"] = base[:nf]
+            del g["nfields"]
+        elif i % 3 == 1 and g["nfields"] <= 12:   # unusual but valid names: metacharacters, blanks, UTF-8 text
+            g["names"] = gen.odd_names(random.Random(seed * 31 + i), g["nfields"], blanks=True, nonascii=True)
             del g["nfields"]
         g["time"] = rng.choice([0.0, 1.25e-3, -2.5, 7.0, 1e300, 4.9e-324, 0.1 + 0.2])
         if i % 5 == 0:
